@@ -82,6 +82,22 @@ def equiv(e1, e2, extra_atoms=()) -> bool:
     return table(e1, al) == table(e2, al)
 
 
+def equiv_conj(parts: list, e) -> bool:
+    """equiv(AND(parts), e) without building a deep conjunction (parts may be thousands)."""
+    al = atoms(e)
+    for p in parts:
+        for k in atoms(p):
+            if k not in al:
+                al.append(k)
+    if len(al) > 16:
+        raise ValueError("too many atoms for a truth table")
+    for bits in itertools.product((False, True), repeat=len(al)):
+        env_ = dict(zip(al, bits))
+        if all(evaluate(p, env_) for p in parts) != evaluate(e, env_):
+            return False
+    return True
+
+
 def conj(exprs: list):
     """Conjunction of a non-empty list of expressions."""
     out = exprs[0]
